@@ -1,6 +1,9 @@
 """C25 — KS aggregation brackets the extremum and has exact gradients.
 
-Three streams on the real code:
+Streams on the real code:
+  seq    one set-up Problem; the run-time options of the already set-up KSComp (rho, upper, lower_flag,
+         minimum) are changed between evaluations (rho continuation, moving bound, flag toggles), with
+         and without a new setup(); value, bracket and exact gradient are checked after every step
   comp   KSComp inside a Problem (IndepVarComp -> KSComp, optional unit conversion on the connection):
          outputs, total derivatives (compute_totals), complex step through KSComp.compute
   jax    openmdao.jax_funcs.ks_max / ks_min: value, jax.grad wrt x and wrt rho
@@ -202,6 +205,22 @@ def err_enum(e):
     return type(e).__name__
 
 
+def seq_subcases(case):
+    """The `comp`-shaped case equivalent to every step of a `seq` case (options in force then)."""
+    cur = dict(case['init'])
+    x = None
+    out = []
+    for st in case['steps']:
+        cur.update(st['set'])
+        if st['x'] is not None:
+            x = st['x']
+        out.append({'kind': 'comp', 'vec': case['vec'], 'width': case['width'], 'x': x,
+                    'upper': cur['upper'], 'lower_flag': cur['lower_flag'],
+                    'minimum': cur['minimum'], 'rho': cur['rho'], 'rho_int': False,
+                    'units': case['units'], 'add_constraint': False, 'dir': st['dir']})
+    return out
+
+
 # ------------------------------------------------------------------------------------------------
 
 class C25(Property):
@@ -217,6 +236,9 @@ class C25(Property):
             "one-ulp near tie} x rho in {1e-3..1 small, 50, 100, 1e3..1e6 large, log-uniform} x "
             "vec_size 1-5 x {upper = 0 / equal to an entry / random / +-1e6} x lower_flag x minimum x "
             "units (unit conversion on the connection) x add_constraint, run on a real Problem "
+            "(fresh per case, plus multi-step sequences on one set-up Problem where rho / upper / "
+            "lower_flag / minimum are changed through ks.options between evaluations, with and "
+            "without a new setup(), every step checked) "
             "(IndepVarComp -> KSComp; get_val, compute_totals, complex step through KSComp.compute), "
             "on jax ks_max / ks_min (value, jax.grad wrt x and rho) and on KSfunction.compute / "
             "derivatives. Non-trivial: width >= 2 and the soft-max weight is not concentrated on one "
@@ -296,6 +318,8 @@ class C25(Property):
     # -- cases -------------------------------------------------------------------------------------
     def cases(self, rng, tier):
         k = 1 if tier == 'quick' else 20
+        for _ in range(40 * k):
+            yield self.gen_seq(rng)
         for _ in range(600 * k):
             yield self.gen_comp(rng)
         for _ in range(250 * k):
@@ -331,6 +355,67 @@ class C25(Property):
                 'upper': rat(upper), 'lower_flag': rng.random() < 0.4, 'minimum': rng.random() < 0.35,
                 'rho': rat(rho), 'rho_int': rho_int, 'rho_class': rcls, 'units': units,
                 'add_constraint': rng.random() < 0.3, 'dir': [rats(r) for r in d], 'fam': fams}
+
+    def gen_seq(self, rng):
+        """Multi-step sequence on one set-up Problem (rho continuation, moving bound, flag toggles)."""
+        vec = rng.choice([1, 2, 3])
+        w = rng.choice([2, 3, 3, 5, 6, 8])
+        rho = rng.choice([1.0, 5.0, 5.0, 20.0, 50.0, 100.0])
+
+        def rows_for(r):
+            rows, fams = [], []
+            for _ in range(vec):
+                if rng.random() < 0.6:
+                    # entries within a few 1/rho of each other (and sometimes tied): live weights
+                    base = rng.choice([0.0, rng.uniform(-3, 3)])
+                    g = [base + rng.uniform(0, 4) / r for _ in range(w)]
+                    if rng.random() < 0.4:
+                        g[rng.randrange(w)] = max(g)
+                    rows.append([float(v) for v in g])
+                    fams.append('near')
+                else:
+                    g, f = gen_row(rng, w, r)
+                    rows.append(g)
+                    fams.append(f)
+            return rows, fams
+
+        def direction():
+            return [rats([float(rng.randint(-3, 3)) if rng.random() < 0.5 else rng.uniform(-1, 1)
+                          for _ in range(w)]) for _ in range(vec)]
+
+        rows, fams = rows_for(rho)
+        init = {'upper': rat(gen_upper(rng, rows) if rng.random() < 0.5 else 0.0),
+                'lower_flag': rng.random() < 0.3, 'minimum': rng.random() < 0.3, 'rho': rat(rho)}
+        cur = dict(init)
+        steps = [{'set': {}, 'x': [rats(r) for r in rows], 'resetup': False, 'dir': direction()}]
+        style = rng.choice(['rho', 'rho', 'rho', 'mixed', 'mixed', 'upper', 'flags'])
+        for _ in range(rng.randint(2, 4)):
+            st = {}
+            names = {'rho': ['rho'], 'upper': ['upper'], 'flags': [rng.choice(['lower_flag', 'minimum'])],
+                     'mixed': rng.sample(['rho', 'upper', 'lower_flag', 'minimum'],
+                                         rng.randint(1, 3))}[style]
+            for name in names:
+                if name == 'rho':
+                    rho = float(rho * rng.choice([2.0, 4.0, 4.0, 16.0, 0.25, 0.5]))
+                    rho = min(max(rho, 0.01), 1e5)
+                    st['rho'] = rat(rho)
+                elif name == 'upper':
+                    st['upper'] = rat(gen_upper(rng, rows))
+                else:
+                    st[name] = not cur[name]
+            cur.update(st)
+            newx = None
+            if rng.random() < 0.35:
+                rows, f2 = rows_for(rho)
+                fams = fams + f2
+                newx = [rats(r) for r in rows]
+            steps.append({'set': st, 'x': newx, 'resetup': rng.random() < 0.2, 'dir': direction()})
+        units = None
+        if rng.random() < 0.2:
+            a, b, _, _ = rng.choice(UNIT_PAIRS)
+            units = [a, b]
+        return {'kind': 'seq', 'vec': vec, 'width': w, 'init': init, 'steps': steps, 'units': units,
+                'style': style, 'fam': sorted(set(fams)), 'rho_class': 'sequence'}
 
     def gen_jax(self, rng):
         rho, rcls = gen_rho(rng)
@@ -377,19 +462,7 @@ class C25(Property):
         p.model.connect('ivc.x', 'ks.g')
         p.setup(force_alloc_complex=True)
         p.set_val('ivc.x', x)
-        p.run_model()
-        g_in = np.array(p.get_val('ks.g'), dtype=float)
-        ks = np.array(p.get_val('ks.KS'), dtype=float)
-        J = np.array(p.compute_totals(of=['ks.KS'], wrt=['ivc.x'])[('ks.KS', 'ivc.x')], dtype=float)
-        # complex step straight through the component's compute()
-        d = np.array([floats(r) for r in case['dir']]).reshape(vec, w)
-        out = {}
-        h = 1e-40
-        p.model.ks.compute({'g': g_in + 1j * h * d}, out)
-        cs = (np.asarray(out['KS']).imag / h).ravel()
-        res = {'shape_ks': list(ks.shape), 'shape_J': list(J.shape),
-               'g_in': [rats(r) for r in g_in.tolist()], 'ks': rats(ks.ravel().tolist()),
-               'J': [rats(r) for r in J.tolist()], 'cs': rats(cs.tolist())}
+        res = self._evaluate(p, vec, w, case['dir'])
         if case['add_constraint']:
             cons = p.model.get_constraints()
             res['cons'] = {k: {'upper': float(np.max(np.atleast_1d(v['upper']))),
@@ -399,6 +472,59 @@ class C25(Property):
         else:
             res['cons'] = sorted(p.model.get_constraints())
         return res
+
+    @staticmethod
+    def _evaluate(p, vec, w, direction):
+        """run_model, outputs, total derivatives and a complex step straight through compute()."""
+        p.run_model()
+        g_in = np.array(p.get_val('ks.g'), dtype=float)
+        ks = np.array(p.get_val('ks.KS'), dtype=float)
+        J = np.array(p.compute_totals(of=['ks.KS'], wrt=['ivc.x'])[('ks.KS', 'ivc.x')], dtype=float)
+        d = np.array([floats(r) for r in direction]).reshape(vec, w)
+        out = {}
+        h = 1e-40
+        p.model.ks.compute({'g': g_in + 1j * h * d}, out)
+        cs = (np.asarray(out['KS']).imag / h).ravel()
+        return {'shape_ks': list(ks.shape), 'shape_J': list(J.shape),
+                'g_in': [rats(r) for r in g_in.tolist()], 'ks': rats(ks.ravel().tolist()),
+                'J': [rats(r) for r in J.tolist()], 'cs': rats(cs.tolist())}
+
+    def impl_seq(self, case):
+        """One Problem, set up once; between evaluations the run-time options of the already set-up
+        KSComp (rho, upper, lower_flag, minimum: read from `options` in compute / compute_partials) are
+        changed through `ks.options[...] = ...`, inputs may change, and a step may call setup() again."""
+        import openmdao.api as om
+        vec, w = case['vec'], case['width']
+        src_units, units = case['units'] if case['units'] else (None, None)
+        o0 = case['init']
+        p = om.Problem()
+        p.model.add_subsystem('ivc', om.IndepVarComp('x', np.zeros((vec, w)), units=src_units))
+        ks = p.model.add_subsystem('ks', om.KSComp(width=w, vec_size=vec, units=units,
+                                                   upper=float(unrat(o0['upper'])),
+                                                   lower_flag=o0['lower_flag'],
+                                                   minimum=o0['minimum'],
+                                                   rho=float(unrat(o0['rho']))))
+        p.model.connect('ivc.x', 'ks.g')
+        p.setup(force_alloc_complex=True)
+        x = None
+        steps = []
+        for k, st in enumerate(case['steps']):
+            try:
+                for name, v in sorted(st['set'].items()):
+                    ks.options[name] = v if isinstance(v, bool) else float(unrat(v))
+                if st['resetup']:
+                    p.setup(force_alloc_complex=True)
+                if st['x'] is not None:
+                    x = np.array([floats(r) for r in st['x']]).reshape(vec, w)
+                if st['x'] is not None or st['resetup']:
+                    p.set_val('ivc.x', x)
+                res = self._evaluate(p, vec, w, st['dir'])
+                res['cons'] = sorted(p.model.get_constraints())
+                steps.append(res)
+            except Exception as e:
+                steps.append({'error': err_enum(e), 'msg': str(e)[:200]})
+                break
+        return {'steps': steps}
 
     def impl_jax(self, case):
         import jax.numpy as jnp
@@ -495,6 +621,23 @@ class C25(Property):
             return {'what': 'constraint added without add_constraint', 'got': impl['cons']}
         return None
 
+    def oracle_seq(self, case, impl):
+        subs = seq_subcases(case)
+        for k, (sub, res) in enumerate(zip(subs, impl['steps'])):
+            f = self.oracle_comp(sub, res)
+            if f is not None:
+                st = case['steps'][k]
+                f = dict(f)
+                f.update(step=k, changed=sorted(st['set']), resetup=st['resetup'],
+                         new_inputs=st['x'] is not None)
+                f['what'] = 'after changing %s on a set-up component%s: %s' % (
+                    '+'.join(sorted(st['set'])) or 'nothing',
+                    ' and calling setup() again' if st['resetup'] else '', f['what'])
+                return f
+        if len(impl['steps']) != len(subs):
+            return {'what': 'sequence stopped early', 'steps_done': len(impl['steps'])}
+        return None
+
     def oracle_jax(self, case, impl):
         if 'error' in impl:
             return {'what': '%s raised %s' % (case['fn'], impl['error']), 'msg': impl.get('msg')}
@@ -564,6 +707,8 @@ class C25(Property):
         sig = {'kind': case['kind'], 'what': failure.get('what')}
         if case['kind'] == 'comp':
             sig.update(lower_flag=case['lower_flag'], minimum=case['minimum'])
+        if case['kind'] == 'seq':
+            sig.update(changed=failure.get('changed'), resetup=failure.get('resetup'))
         if case['kind'] == 'jax':
             sig['fn'] = case['fn']
         return sig
@@ -581,6 +726,18 @@ class C25(Property):
     def nontrivial(self, case, impl):
         if case['kind'] == 'bad' or 'error' in impl:
             return False
+        if case['kind'] == 'seq':
+            # some step after an option change has live weights on more than one entry
+            for k, (sub, res) in enumerate(zip(seq_subcases(case), impl['steps'])):
+                if k == 0 or 'error' in res or not case['steps'][k]['set']:
+                    continue
+                for row in res['g_in']:
+                    c = con_values(floats(row), float(unrat(sub['upper'])), sub['lower_flag'],
+                                   sub['minimum'])
+                    _, wts, _ = ref_row(c, float(unrat(sub['rho'])))
+                    if max(wts) < 1 - Decimal('1e-6'):
+                        return True
+            return False
         rho = float(unrat(case['rho']))
         for row in self._rows(case):
             if len(row) < 2:
@@ -595,6 +752,21 @@ class C25(Property):
     def bucket(self, case, impl):
         b = ['kind=' + case['kind'], 'impl_error' if 'error' in impl else 'impl_ok']
         if case['kind'] == 'bad':
+            return b
+        if case['kind'] == 'seq':
+            b.append('seq_style=' + case['style'])
+            b.append('seq_steps=%d' % len(case['steps']))
+            b.append('seq_live_weights_after_change' if self.nontrivial(case, impl)
+                     else 'seq_one_hot_after_change')
+            for st in case['steps'][1:]:
+                for name in st['set']:
+                    b.append('seq_set_' + name)
+                if st['resetup']:
+                    b.append('seq_resetup_step')
+                if st['x'] is not None:
+                    b.append('seq_new_inputs_step')
+            if case['units']:
+                b.append('seq_units')
             return b
         rows = self._rows(case)
         w = len(rows[0])
@@ -630,6 +802,12 @@ class C25(Property):
                      'g': [[] for _ in range(case['vec'])] if case['width'] == 0 else []}]
         if 'error' in impl:
             return []
+        if case['kind'] == 'seq':
+            # the model is a function of the options in force at each evaluation
+            if any('error' in r for r in impl['steps']):
+                return []
+            return [self.model_requests(sub, res)[0]
+                    for sub, res in zip(seq_subcases(case), impl['steps'])]
         if case['kind'] == 'comp':
             return [{'op': 'comp', 'upper': case['upper'], 'rho': case['rho'],
                      'lower_flag': case['lower_flag'], 'minimum': case['minimum'],
@@ -645,6 +823,12 @@ class C25(Property):
         return abs(a - b) <= rel * (1 + max(abs(a), abs(b))) + absol
 
     def compare(self, case, impl, answers):
+        if case['kind'] == 'seq':
+            for k, (sub, res, a) in enumerate(zip(seq_subcases(case), impl['steps'], answers)):
+                d = self.compare(sub, res, [a])
+                if d is not None:
+                    return 'step %d (set %s): %s' % (k, sorted(case['steps'][k]['set']), d)
+            return None
         a = answers[0]
         if case['kind'] == 'bad':
             if ('error' in impl) != (not a.get('ok')):
